@@ -423,6 +423,11 @@ def range_writer(ctx, rule, parts=("R1", "R2", "R3")):
     sb, st = sets[0]
     ctx.check(has_fact(body, sb, roles, ("true", "Token::is_range(token)", None)), rule, fn, "bitset:is_range", "a bit is set exactly for range tokens", ctx.site(body, sb))
     ctx.check(q.shape(q.arg_expr(body, st, 2)) == "1", rule, fn, "bitset:true", "the bit is set to true")
+    from rules.common import loop_passes
+    rng_sw = [d for d in range(len(body.blocks)) if body.blocks[d]["term"]["k"] == "switch" and q.shape(body.expr_of_operand(body.blocks[d]["term"]["discr"]), roles) == "Token::is_range(token)"]
+    if ctx.check(len(rng_sw) == 1, rule, fn, "R1:is_range-test", "the range flag of the token is tested once"):
+        yes = body.blocks[rng_sw[0]]["term"]["otherwise"]
+        ctx.check(loop_passes(body, yes, loop_head(body), [sb]), rule, fn, "R1:every-range-token", "the bit is written for *every* range token (no further condition such as 'has a source')", ctx.site(body, sb))
     n_local = q.root_local(q.arg_expr(body, st, 1))
     # follow copies to the running ordinal
     ord_local = n_local
